@@ -514,3 +514,7 @@ impl SyncRequester {
         Ok((Self::write(target, message)?, sent))
     }
 }
+
+#[cfg(kani)]
+#[path = "/verif/kani/aranya-runtime/requester.rs"]
+mod verif_kani;
